@@ -36,7 +36,12 @@ def cases(rnd, n):
         for _ in range(25):
             if rnd.random() < 0.25:
                 nm = rnd.choice(["agg.foo.bar", "agg.a", "foo.agg.x", "agg.agg.b"])
-                ls.append("in %s %d %d" % (tg.hx("%s 2 1500000000" % nm), gen.fbits("2"), 1500000000))
+                # the harness clock stands at 100000: timestamps around it are late points (behind a rule's wait) or current ones
+                ts = rnd.choice([1500000000, 1500000000, 50000, 99000, 99900, 99990, 100000, 100010])
+                ls.append("in %s %d %d" % (tg.hx("%s 2 %d" % (nm, ts)), gen.fbits("2"), ts))
+            elif rnd.random() < 0.15:
+                line, bits, ts = tg.metric_line(rnd, invalid_p=0.0, ts=rnd.choice([50000, 99000, 99900, 99990, 100000]))
+                ls.append("in %s %d %d" % (tg.hx(line), bits, ts))
             elif rnd.random() < 0.15:
                 ls.append("aggin %s" % tg.hx("%s 1.000000 1500000000" % rnd.choice(["agg.foo.bar", "foo.sum", gen.name(rnd)])))
             else:
